@@ -111,12 +111,19 @@ struct Plan {
     maxlen: usize,
     chain_upto: usize,
     warm: u64,
+    /// large ring: single cheap entries only, chained for K+2 rounds so that every slot up to the last is used
+    large: bool,
 }
+
+const LARGE_SYMS: &[&str] = &["readv:full", "statx:existing", "timeout:abs-past"];
 
 /// Rounds of a chained batch: 3*ring, and at least enough for 2*K+2 entries (K = SQ slots the kernel
 /// allocated) to pass through the ring within this one case, so that every slot index 0..K — also those
 /// beyond a non-power-of-two requested size — carries a real, checked submission.
 fn rounds_for(p: &Plan, len: usize) -> u32 {
+    if p.large {
+        return p.kernel_entries + 2;
+    }
     if len > p.chain_upto {
         return 1;
     }
@@ -174,20 +181,34 @@ pub fn run(args: &Args) -> Report {
     let kern = |e: u32| ops_raw::kernel_ring_entries(e).map(|x| x.0).unwrap_or_else(|| e.next_power_of_two());
     if usable.contains(&0) {
         for &e in odd_sizes {
-            plans.push(Plan { entries: e, kernel_entries: kern(e), flags: 0, maxlen: if th { 3 } else { 2 }, chain_upto: 2, warm: if th { 100 } else { 0 } });
+            plans.push(Plan { entries: e, kernel_entries: kern(e), flags: 0, maxlen: if th { 3 } else { 2 }, chain_upto: 2, warm: if th { 100 } else { 0 }, large: false });
         }
     }
     if usable.contains(&0) {
         for &e in sizes {
             // thorough: length 4 on the ring of 4 entries (the ring is completely filled); the ring of 8 stays at length 3
             let l = if th && e == 4 { 4 } else { 3 };
-            plans.push(Plan { entries: e, kernel_entries: kern(e), flags: 0, maxlen: (e as usize).min(l), chain_upto: if th { 3 } else { 2 }, warm: if th { 100 } else { 0 } });
+            plans.push(Plan { entries: e, kernel_entries: kern(e), flags: 0, maxlen: (e as usize).min(l), chain_upto: if th { 3 } else { 2 }, warm: if th { 100 } else { 0 }, large: false });
         }
     }
     for &b in usable.iter().filter(|&&b| b != 0) {
-        plans.push(Plan { entries: 4, kernel_entries: kern(4), flags: b, maxlen: if th { 3 } else { 2 }, chain_upto: if th { 2 } else { 1 }, warm: if th { 100 } else { 0 } });
+        plans.push(Plan { entries: 4, kernel_entries: kern(4), flags: b, maxlen: if th { 3 } else { 2 }, chain_upto: if th { 2 } else { 1 }, warm: if th { 100 } else { 0 }, large: false });
     }
 
+    // large rings: the shared SQ/CQ mapping's layout only shows at >= 1024 kernel entries
+    {
+        let cqe32 = IoUringParamFlags::IORING_SETUP_CQE32.bits();
+        let sqe128 = IoUringParamFlags::IORING_SETUP_SQE128.bits();
+        let mut big: Vec<(u32, u32)> = vec![(1024, 0), (1000, 0), (1024, cqe32), (1024, sqe128)];
+        if th {
+            big.extend([(4096, 0), (4096, cqe32), (2048, sqe128), (513, 0)]);
+        }
+        for (e, f) in big {
+            if usable.contains(&f) {
+                plans.push(Plan { entries: e, kernel_entries: kern(e), flags: f, maxlen: 1, chain_upto: 1, warm: 0, large: true });
+            }
+        }
+    }
     let ns = SYMS.len();
     let mut items = Vec::new();
     let mut n_cases_planned = 0u64;
@@ -198,6 +219,9 @@ pub fn run(args: &Args) -> Report {
             }
             // item kind A: all batches of length 1..=min(maxlen,3) starting with s0
             for s0 in 0..ns {
+                if p.large && (linked || !LARGE_SYMS.contains(&SYMS[s0].name)) {
+                    continue;
+                }
                 let cal_a = cal.clone();
                 let tag = format!("e{}f{}{}s{}", p.entries, p.flags, if linked { "L" } else { "I" }, s0);
                 let short = p.maxlen.min(3);
@@ -235,6 +259,40 @@ pub fn run(args: &Args) -> Report {
             }
         }
     }
+    // the SQPOLL wake-up protocol: pure function over harness memory, and the kernel scenario
+    {
+        let words = crate::ops_sqpoll::words();
+        n_cases_planned += words.len() as u64;
+        items.push(isolated("needs_wakeup-pure", move || {
+            let mut r = Report::new();
+            for w in words {
+                crate::ops_sqpoll::pure_case(w, &mut r, false);
+            }
+            r
+        }));
+        let sqpoll_ok = usable.contains(&IoUringParamFlags::IORING_SETUP_SQPOLL.bits());
+        let reps: u32 = if th { 10 } else { 2 };
+        let rings: &[u32] = if th { &[2, 4] } else { &[2] };
+        if sqpoll_ok {
+            for &e in rings {
+                for overflow in [false, true] {
+                    for rep in 0..reps {
+                        n_cases_planned += 1;
+                        items.push(isolated(format!("sqpoll-e{e}-{overflow}-{rep}"), move || {
+                            let mut r = Report::new();
+                            install_watchdog();
+                            let sh = Shard::new(&format!("sqp{e}{overflow}{rep}"));
+                            crate::ops_sqpoll::kernel_case(&sh.base, e, overflow, rep, &mut r, false);
+                            sh.finish();
+                            r
+                        }));
+                    }
+                }
+            }
+        } else {
+            notes.push("SQPOLL rings are not usable here: the kernel wake-up scenario was not run (the pure needs_wakeup check was)".into());
+        }
+    }
     // rotate the start order with the seed (no sampling: every item runs)
     if !items.is_empty() {
         let k = (args.seed as usize) % items.len();
@@ -250,7 +308,7 @@ pub fn run(args: &Args) -> Report {
          Each (ring size, flags, mode, sequence) is generated exactly once; every case is non-trivial (it submits at least one entry and compares it with the direct call)."
     );
     r.bound("alphabet", SYMS.iter().map(|s| s.name).collect::<Vec<_>>());
-    r.bound("plans", plans.iter().map(|p| json!({"ring": p.entries, "kernel_ring_entries": p.kernel_entries, "rounds_len1": rounds_for(p, 1), "rounds_len2": rounds_for(p, 2), "flags": flags_name(p.flags), "max_len": p.maxlen, "chained_up_to_len": p.chain_upto, "warm_up_submissions": p.warm})).collect::<Vec<_>>());
+    r.bound("plans", plans.iter().map(|p| json!({"ring": p.entries, "kernel_ring_entries": p.kernel_entries, "rounds_len1": rounds_for(p, 1), "rounds_len2": rounds_for(p, 2), "flags": flags_name(p.flags), "max_len": p.maxlen, "chained_up_to_len": p.chain_upto, "warm_up_submissions": p.warm, "large_ring_single_entry_plan": p.large})).collect::<Vec<_>>());
     r.bound("cases_planned", n_cases_planned);
     r.bound("shards", n_items);
     r.note(format!("wall {:.1}s", t0.elapsed().as_secs_f64()));
@@ -268,7 +326,11 @@ fn shard_body(tag: &str, p: Plan, linked: bool, cal: &Calib, each: impl FnOnce(&
     let mut r = Report::new();
     install_watchdog();
     let mut sh = Shard::new(tag);
-    let mut rs = match sh.make_ring(p.entries, p.flags) {
+    // a fault inside set-up (e.g. the index array initialised beyond the mapping) belongs to set-up
+    set_case(&json!({"phase": "drop", "op": "setup", "ring": p.entries, "kernel_ring_entries": p.kernel_entries, "flags": p.flags, "flags_name": flags_name(p.flags), "used": false, "interpose": false}).to_string());
+    let made = sh.make_ring(p.entries, p.flags);
+    clear_case();
+    let mut rs = match made {
         Ok(x) => x,
         Err(e) => {
             r.cap(format!("shard {tag}: ring set-up refused: {e}"));
@@ -307,6 +369,10 @@ fn shard_body(tag: &str, p: Plan, linked: bool, cal: &Calib, each: impl FnOnce(&
 }
 
 pub fn replay(v: &Value, r: &mut Report) {
+    if v.get("scenario").is_some() {
+        crate::ops_sqpoll::replay(v, r);
+        return;
+    }
     let batch: Vec<usize> = v["batch"].as_array().expect("batch").iter().map(|x| sym_index(x.as_str().unwrap()).expect("symbol")).collect();
     let c = Case {
         entries: v["ring"].as_u64().unwrap_or(4) as u32,
